@@ -16,7 +16,8 @@ Vocabulary:
 * `convertUnits n tgt p` — `convert_units`; `mapUnits n a` — `map_units` / `to_neuron_space`;
   `roundSmart` — `utils.round_smart`.
 * `applyOp n ids op` — the `(units, name, id)` flow of the non-scaling operations (`ids` are the fresh uuids
-  `BaseNeuron.__init__` draws on the way).
+  `BaseNeuron.__init__` draws on the way); `reinit n arg`, `fromTable … arg` — `cls(x, units=arg)` and
+  construction from a table, with `assignUnits` = the guarded `self.units = units` of navis commit 4ae0b05.
 
 **VoxelNeuron.** Its arithmetic is a different design: the integer voxel indices cannot be scaled, so `x * k`
 multiplies the *units* (the voxel size), the offset and the connectors.  The consistency that holds is
@@ -292,19 +293,19 @@ theorem units_roundtrip (u : Units) : setUnits (unitsAsArg u) = some u :=
 /-! ## 7. non-scaling operations keep (units, name, id) -/
 
 /-
-Full statement (DESIGN §5): `∀ op, applyOp n ids op = some m → m.metadata = n.metadata`.
-It is FALSE for the code as it is: `Op.rewrap` (`TreeNeuron(x)`, `MeshNeuron(x)`) and `Op.reinitAfterCut`
-(`TreeNeuron.prune_distal_to` / `prune_proximal_to`) re-run `__init__`, whose last statement
-`self.units = units` assigns the default `None` over the copied units (`reinit_loses_units`,
-`reinit_loses_units_witness`).  Proved: the statement for every other operation class
-(`metadata_preserved_partial`), name and id for the two defective ones (`reinit_keeps_name_id`), and the
-full statement for the repaired re-initialisation `Op.reinitKeepUnits` (it is covered by `_partial`).
+History: up to navis 37e0d53 the last statement of `TreeNeuron.__init__` / `MeshNeuron.__init__` was an
+unconditional `self.units = units`, so `TreeNeuron(x)`, `MeshNeuron(x)`, `prune_distal_to`, `prune_proximal_to`
+returned `1 dimensionless` (DESIGN §6 #12; then only a `metadata_preserved_partial` was provable).  Fixed in navis
+commit 4ae0b05 (`if units is not None or not hasattr(self, '_unit_str')`); the model follows the repaired code
+(`assignUnits`) and the full statement holds.
 -/
 
-/-- **metadata_preserved_partial.** Every operation class except the two re-initialisations with the default
-`units=None` returns a neuron with the units, name and id of its input — for all neurons, all data edits,
-all fresh uuids drawn on the way. -/
-theorem metadata_preserved_partial (n : Neuron) (ids : Int × Int × Int) (op : Op) (hop : op.keepsUnitsArg = true) :
+/-- **metadata_preserved.** Every non-scaling operation class — copying, functions and methods working on a
+copy (reroot, cut, subset, prune_*, heal, stitch, re- and downsample …), construction with passed-on metadata
+(make_dotprops …), pickling, re-wrapping in the own class, re-initialisation after a cut
+(`prune_distal_to` / `prune_proximal_to`) — is defined and returns a neuron with the units, name and id of its
+input: for all neurons, all data edits, all fresh uuids drawn on the way. -/
+theorem metadata_preserved (n : Neuron) (ids : Int × Int × Int) (op : Op) :
     ∃ m, applyOp n ids op = some m ∧ m.metadata = n.metadata := by
   cases op with
   | copy => exact ⟨_, rfl, rfl⟩
@@ -313,34 +314,28 @@ theorem metadata_preserved_partial (n : Neuron) (ids : Int × Int × Int) (op : 
     simp only [applyOp, setUnits_unitsAsArg]
     exact ⟨_, rfl, rfl⟩
   | pickle => exact ⟨_, rfl, rfl⟩
-  | rewrap => cases hop
-  | reinitAfterCut e => cases hop
-  | reinitKeepUnits e =>
-    simp only [applyOp, reinit, setUnits_unitsAsArg]
-    exact ⟨_, rfl, rfl⟩
+  | rewrap => exact ⟨_, rfl, rfl⟩
+  | reinitAfterCut e => exact ⟨_, rfl, rfl⟩
 
-/-- **reinit_keeps_name_id / reinit_loses_units.** Re-wrapping and the re-initialising prune methods keep
-name and id but always return `1 dimensionless` units. -/
-theorem reinit_keeps_name_id (n : Neuron) (ids : Int × Int × Int) (op : Op) (hop : op.keepsUnitsArg = false) :
-    ∃ m, applyOp n ids op = some m ∧ m.name = n.name ∧ m.id = n.id ∧ m.units = Units.none := by
-  cases op with
-  | rewrap => exact ⟨_, rfl, rfl, rfl, rfl⟩
-  | reinitAfterCut e => exact ⟨_, rfl, rfl, rfl, rfl⟩
-  | copy => cases hop
-  | onCopy e => cases hop
-  | construct k e => cases hop
-  | pickle => cases hop
-  | reinitKeepUnits e => cases hop
+/-- **reinit_explicit_units_override.** `cls(x, units=u)` still overrides: the result carries exactly the
+units the setter makes of the argument, and the name and id of `x`. -/
+theorem reinit_explicit_units_override (n : Neuron) (a : List UnitArg) (u : Units) (i j : Int)
+    (h : setUnits a = some u) :
+    ∃ m, reinit n (some a) i j = some m ∧ m.units = u ∧ m.name = n.name ∧ m.id = n.id ∧ m.pts = n.pts := by
+  simp only [reinit, assignUnits, h]
+  exact ⟨_, rfl, rfl, rfl, rfl, rfl⟩
 
-/-- Hence the full statement fails exactly when the input had units other than `1 dimensionless`. -/
-theorem reinit_loses_units (n : Neuron) (ids : Int × Int × Int) (op : Op) (hop : op.keepsUnitsArg = false)
-    (hu : n.units ≠ Units.none) : ∃ m, applyOp n ids op = some m ∧ m.metadata ≠ n.metadata := by
-  obtain ⟨m, hm, _, _, h3⟩ := reinit_keeps_name_id n ids op hop
-  refine ⟨m, hm, ?_⟩
-  intro h
-  apply hu
-  have : m.units = n.units := congrArg (fun t => t.1) h
-  rw [← this, h3]
+/-- **from_table_units.** Construction from a bare table: the default gives `1 dimensionless`, an explicit
+`units=` gives what the setter makes of it, `name=` / `id=` are taken over. -/
+theorem from_table_units (k : Kind) (pts : List V3) (radii : List Rat) (conns : List V3) (name : String) (id : Int) :
+    (∃ m, fromTable k pts radii conns none name id = some m ∧ m.units = Units.none ∧ m.name = name ∧ m.id = id) ∧
+    (∀ a u, setUnits a = some u →
+      ∃ m, fromTable k pts radii conns (some a) name id = some m ∧ m.units = u ∧ m.name = name ∧ m.id = id) := by
+  constructor
+  · exact ⟨_, rfl, rfl, rfl, rfl⟩
+  · intro a u h
+    simp only [fromTable, assignUnits, h]
+    exact ⟨_, rfl, rfl, rfl, rfl⟩
 
 /-! ## 8. the driver's exact comparison is sound -/
 
@@ -392,13 +387,16 @@ be converted: `convert_units` multiplies by a 3-vector, which `TreeNeuron.__mul_
 theorem convert_units_tree_anisotropic_raises :
     convertUnits { exTree with units := ⟨⟨4, 4, 40⟩, .metre (-9)⟩ } (-6) (-6) = none := by decide +kernel
 
-/-- **reinit_loses_units_witness (known finding).** `TreeNeuron(x)` of the `8 nm` skeleton is dimensionless,
-and so is the result of the `prune_distal_to` flow; `x.copy()` and the repaired re-init are not. -/
-theorem reinit_loses_units_witness :
-    (applyOp exTree (1, 2, 3) .rewrap).map (·.units) = some Units.none ∧
-    (applyOp exTree (1, 2, 3) (.reinitAfterCut ⟨fun l => l.take 2, fun l => l.take 2, id⟩)).map (·.units) = some Units.none ∧
-    (applyOp exTree (1, 2, 3) .copy).map (·.units) = some exTree.units ∧
-    (applyOp exTree (1, 2, 3) (.reinitKeepUnits ⟨fun l => l.take 2, fun l => l.take 2, id⟩)).map (·.units)
+/-- **rewrap_witness.** On the `8 nm` skeleton: `TreeNeuron(x)` and the `prune_distal_to` flow keep `8 nm`;
+`TreeNeuron(x, units='1 um')` gives `1 um`; a bare table gives `1 dimensionless`, a table with
+`units='8 nm'` gives `8 nm`. -/
+theorem rewrap_witness :
+    (applyOp exTree (1, 2, 3) .rewrap).map (·.units) = some exTree.units ∧
+    (applyOp exTree (1, 2, 3) (.reinitAfterCut ⟨fun l => l.take 2, fun l => l.take 2, id⟩)).map (·.units)
+      = some exTree.units ∧
+    (reinit exTree (some [.parsed 1 (.metre (-6))]) 1 2).map (·.units) = some ⟨V3.rep 1, .metre (-6)⟩ ∧
+    (fromTable .tree exTree.pts exTree.radii [] none "t" 5).map (·.units) = some Units.none ∧
+    (fromTable .tree exTree.pts exTree.radii [] (some [.parsed 8 (.metre (-9))]) "t" 5).map (·.units)
       = some exTree.units := by decide +kernel
 
 /-- **voxel_scale_not_invariant (witness, known finding).** For a `VoxelNeuron`, `x * 2` doubles the physical
